@@ -612,6 +612,22 @@ impl IceTransportRunner {
     /// removes the transaction from `pending_transactions`.
     async fn run_keepalive_tick(inner: &Arc<IceTransportInner>) -> Option<BoxFuture<'static, ()>> {
         let state = *inner.state.borrow();
+        // Checks that never succeed do not fail the transport by themselves (trickled
+        // candidates may still arrive), so bound the Checking state here: nothing at all was
+        // heard from the peer for `ice_connection_timeout` since the checks began.
+        if state == IceTransportState::Checking
+            && inner.config.transport_mode == crate::TransportMode::WebRtc
+            && inner.selected_pair.lock().is_none()
+        {
+            let last_nanos = inner.last_received_nanos.load(Ordering::Relaxed);
+            let now_nanos = inner.created_at.elapsed().as_nanos() as u64;
+            if Duration::from_nanos(now_nanos.saturating_sub(last_nanos))
+                > inner.config.ice_connection_timeout
+            {
+                let _ = inner.state.send(IceTransportState::Failed);
+            }
+            return None;
+        }
         if state == IceTransportState::Connected || state == IceTransportState::Disconnected {
             if inner.config.transport_mode == crate::TransportMode::WebRtc {
                 let last_nanos = inner.last_received_nanos.load(Ordering::Relaxed);
@@ -1113,6 +1129,12 @@ impl IceTransport {
             let mut params = self.inner.remote_parameters.lock();
             *params = Some(remote);
         }
+        // Restart the silence clock: `ice_connection_timeout` is measured from the moment
+        // checks begin (see the Checking branch of `run_keepalive_tick`).
+        self.inner.last_received_nanos.store(
+            self.inner.created_at.elapsed().as_nanos() as u64,
+            Ordering::Relaxed,
+        );
         if let Err(e) = self.inner.state.send(IceTransportState::Checking) {
             debug!("start: failed to set state to Checking: {}", e);
         }
